@@ -20,6 +20,7 @@ CONSTANTS
   UNDSET,      \* sets of undeclared candidates to explore (mpls)
   DEVS,        \* enabled deviation arms (CodeSpec = all known, TextSpec = {})
   CHECK,       \* set of property ids evaluated at the end of every count
+  KNOWNCL,     \* clause names of listed known findings (known_findings.json) that the model reproduces
   EXPORT       \* print every n-th finished count as a JSON case (0 = none)
 
 VARIABLE s
@@ -35,7 +36,7 @@ MkHeader(cfg, seats, wd, und, tie, lines) ==
    exactq |-> cfg.kind = "guarded" /\ cfg.g > 0,
    intq |-> cfg.intq, batch |-> cfg.batch, omega10 |-> cfg.omega10,
    omega |-> IF FamOf(cfg.rule) = "meek" THEN Pow10(cfg.p + cfg.g) \div Pow10(cfg.omega10) ELSE 0,
-   nc |-> NC, seats |-> seats, wd |-> wd, und |-> und, tie |-> tie, lines |-> lines,
+   nc |-> NC, seats |-> seats, wd |-> wd, und |-> und, tie |-> tie, lines |-> lines, eq |-> <<>>,
    n |-> Sum([j \in 1 .. Len(lines) |-> lines[j].m]), devs |-> DEVS]
 
 (* ---------- setup: every strict partial ranking over the non-withdrawn candidates ---------- *)
@@ -94,9 +95,9 @@ Run(h) == RunFrom(InitState(h), 400)
 
 (* ---------- properties ---------- *)
 Done == s.pc = "done"
-AllFails(T) == UNION {FailOf(p, T) : p \in CHECK}
+AllFails(T) == {f \in UNION {FailOf(p, T) : p \in CHECK} : f[2] \notin KNOWNCL}
 (* every property of Props.tla holds of every finished count *)
-PropsHold == Done => AllFails(TraceOf(s)) = {}
+PropsHold == Done => (AllFails(TraceOf(s)) = {} \/ (PrintT(<<"FAILS", AllFails(TraceOf(s)), s.h>>) /\ FALSE))
 (* C01 liveness: every count terminates *)
 Terminates == (s.pc # "setup") ~> Done
 (* the count never takes more steps than a generous structural bound (guards RunFrom's fuel) *)
